@@ -320,7 +320,7 @@ def model_obs(case, line_out, mid, fid):
     rmid = {v: k for k, v in mid.items()}
     rfid = {v: k for k, v in fid.items()}
     evs = [e.strip() for e in line_out.split(" ; ")] if line_out.strip() else []
-    obs = {"startup": [], "calls": [], "wrongcast": []}
+    obs = {"startup": [], "calls": []}
     i = 0
     while i < len(evs) and (evs[i].startswith("DIAG load") or evs[i].startswith("DIAG reg")):
         w = evs[i].split()
@@ -630,6 +630,10 @@ class Gen:
         return {"origin": origin, "mods": [{"name": n, "decls": d} for n, d in mods.items()], "calls": out}
 
 
+def bound_vals(t):
+    return INT_BOUND if t == "i" else [s64(v) for v in LONG_BOUND] if t == "l" else DBL_BOUND
+
+
 def supported_cases(g, rng, tier):
     """every supported signature x boundary values (position by position) x reply constants."""
     cases = []
@@ -637,10 +641,7 @@ def supported_cases(g, rng, tier):
         fn = "e_%s_%s" % (r, ps)
         calls = []
         for pos, t in enumerate(ps):
-            vals = (INT_BOUND if t == "i" else LONG_BOUND if t == "l" else DBL_BOUND)
-            for v in vals:
-                if t == "l":
-                    v = s64(v)
+            for v in bound_vals(t):
                 args = [mk_arg(rng, tt, j) for j, tt in enumerate(ps)]
                 args[pos] = mk_arg(rng, t, pos, v)
                 if t == "d" and dbl_literal(v) is None:
@@ -662,8 +663,8 @@ def supported_cases(g, rng, tier):
             calls.append({"q": True, "mod": "echo", "fn": fn, "args": [], "use": "direct"})
         # all-boundary pairs for arity 2
         if len(ps) == 2:
-            for v0 in (INT_BOUND if ps[0] == "i" else DBL_BOUND)[:8]:
-                for v1 in (INT_BOUND if ps[1] == "i" else DBL_BOUND)[:8]:
+            for v0 in bound_vals(ps[0])[:8]:
+                for v1 in bound_vals(ps[1])[:8]:
                     a0, a1 = mk_arg(rng, ps[0], 0, v0), mk_arg(rng, ps[1], 1, v1)
                     calls.append({"q": True, "mod": "echo", "fn": fn, "args": [a0, a1], "use": "var"})
         # reply constants: boundary RESULTS
@@ -829,7 +830,17 @@ def run_cases(cases, impl_dir, echo_dir, syms):
     for c, ml, (mid, fid), (rc, o, e) in zip(cases, mout, maps, runs):
         mo = model_obs(c, ml, mid, fid)
         io = observe(c, rc, o, e)
-        res.append({"case": c, "model": mo, "impl": io, "agree": same_obs(mo, io), "spec": spec_check(c, io, syms), "model_line": ml})
+        agree = same_obs(mo, io)
+        spec = spec_check(c, io, syms)
+        if agree:
+            # the model speaks for the implementation here: the pointer type it says the call went through
+            for k, (cc, o) in enumerate(zip(c["calls"], mo["calls"])):
+                r_, ps_, _ = decl_of(syms, cc["fn"])
+                want = "%s(%s)" % (r_, ps_.lower())
+                if o.get("cast") and o["cast"] != want and not any(f["call"] == k and f["rule"] == "unmarshalable_called" for f in spec):
+                    spec.append({"call": k, "rule": "wrong_cast", "finding": None,
+                                 "text": "%s declared %s is entered through a pointer of type %s" % (cc["fn"], want, o["cast"])})
+        res.append({"case": c, "model": mo, "impl": io, "agree": agree, "spec": spec, "model_line": ml})
     return res
 
 
@@ -920,12 +931,6 @@ def report_bad(rep, results, impl_dir, echo_dir, syms, budget=6):
     return n
 
 
-def targeted_from_proof_failure(g):
-    """When a table obligation breaks, the inputs most likely to expose it: every supported signature with
-    asymmetric, all-different argument values (these are part of supported_cases anyway)."""
-    return []
-
-
 # ------------------------------------------------------------------ main
 def run(rep):
     seed, tier = rep.seed, rep.tier
@@ -955,7 +960,7 @@ def run(rep):
     n_unsup = 0
     for s in seeds:
         cases += supported_cases(g, rng_for(s, "c20-sup"), tier)
-        cases += random_cases(g, s, 400 if tier == "quick" else 6000)
+        cases += random_cases(g, s, 1500 if tier == "quick" else 20000)
         u, n_unsup = unsupported_cases(g, s, tier)
         cases += u
         cases += misc_cases(g, s, tier)
@@ -1027,6 +1032,14 @@ def run(rep):
                           "replay of %s now fails differently: %s" % (f["id"], fails[0]["text"]))
         else:
             rep.notes.append("known finding %s no longer reproduces (fixed?)" % f["id"])
+    if tier == "thorough" and cq["ok"]:
+        with common.Lock("coq"):
+            rc, o, e = common.sh(["coqchk", "-silent", "-o", "-Q", ".", "Cb", "Cb.C20.Properties_C20"], cwd=common.COQ, timeout=1200)
+        txt = o + e
+        m = re.search(r"\* Axioms:\s*(.*?)\n\s*\n", txt, re.S)
+        rep.coverage["coqchk"] = {"rc": rc, "axioms": (m.group(1).strip() if m else "?")}
+        if rc != 0:
+            rep.violation("coqchk", {"log": txt[-3000:]}, "coqchk rejects the compiled closure of Properties_C20", True)
     rep.assumptions += [
         "that a call through a correctly typed function pointer passes the bits unchanged is the platform ABI (x86-64 SysV, gcc): tested by the echo library, not proved",
         "registration (dlopen/dlsym) and the two call sites are modelled by hand and tied to the code by differential testing, not proof",
